@@ -2,20 +2,23 @@
    units with single spaces inserted at unit boundaries only.
 
    Since fix b848432 the words are built as lists of units and joined (Dibs/Model.v,
-   seg_words); the word separator is only used to tokenize the input.  The theorems
-   below therefore hold for EVERY word separator; before the fix they needed a
-   hypothesis (sep_ok: the first character of the separator occurs in no unit and
-   nowhere else in the separator, and the separator is whitespace-free). *)
+   seg_words); before it the theorems needed a hypothesis on the word separator
+   (sep_ok: the first character of the separator occurs in no unit and nowhere else
+   in the separator, and the separator is whitespace-free).  Since fix 1af026b the
+   word separator of the train text plays no part at all in the segmentation: the
+   units of an utterance are those of str.split (before it the separator was first
+   deleted from the utterance, which lost every unit spelled like it), and the
+   theorems below no longer mention it. *)
 From WS Require Import Base.Py Base.Str Base.Seg Separator.Model Dibs.Model Dibs.StrLemmas Dibs.Proofs.
 From Coq Require Import QArith.
 Local Open Scope nat_scope.
 
-Theorem segment_utt_is_seg : forall (t : list ((str * str) * Q)) (thr : Q) (wordsep utt out : str),
-  segment_utt t thr wordsep utt = Ok out ->
-  is_seg (split_ws (replace_all wordsep [sp] utt)) out.
+Theorem segment_utt_is_seg : forall (t : list ((str * str) * Q)) (thr : Q) (utt out : str),
+  segment_utt t thr utt = Ok out ->
+  is_seg (split_ws utt) out.
 Proof.
-  intros t thr wordsep utt out H. unfold segment_utt in H.
-  destruct (split_ws (replace_all wordsep [sp] utt)) as [|p0 rest]; [discriminate H|].
+  intros t thr utt out H. unfold segment_utt in H.
+  destruct (split_ws utt) as [|p0 rest]; [discriminate H|].
   injection H as <-.
   exists (seg_words t thr p0 rest [p0] []).
   split; [apply seg_words_concat|]. split; [apply seg_words_nonnil|reflexivity].
@@ -24,52 +27,49 @@ Qed.
 (* the units are non-empty and whitespace-free, so the segmentation can be read back:
    the words of the output are non-empty groups of the units, and deleting the spaces
    of the output gives the units concatenated *)
-Theorem segment_utt_words_groups : forall (t : list ((str * str) * Q)) (thr : Q) (wordsep utt out : str),
-  segment_utt t thr wordsep utt = Ok out ->
+Theorem segment_utt_words_groups : forall (t : list ((str * str) * Q)) (thr : Q) (utt out : str),
+  segment_utt t thr utt = Ok out ->
   exists groups : list (list str),
-    concat groups = split_ws (replace_all wordsep [sp] utt) /\
+    concat groups = split_ws utt /\
     Forall (fun g : list str => g <> []) groups /\
     split_ws out = map (@concat char) groups.
 Proof.
-  intros t thr wordsep utt out H.
-  destruct (split_ws (replace_all wordsep [sp] utt)) as [|p0 rest] eqn:Eu.
+  intros t thr utt out H.
+  destruct (split_ws utt) as [|p0 rest] eqn:Eu.
   { unfold segment_utt in H. rewrite Eu in H. discriminate H. }
   exists (seg_words t thr p0 rest [p0] []).
   split; [apply seg_words_concat|]. split; [apply seg_words_nonnil|].
-  exact (segment_utt_words t thr wordsep utt out p0 rest Eu H).
+  exact (segment_utt_words t thr utt out p0 rest Eu H).
 Qed.
 
-Theorem segment_utt_despace : forall (t : list ((str * str) * Q)) (thr : Q) (wordsep utt out : str),
-  segment_utt t thr wordsep utt = Ok out ->
-  despace out = concat (split_ws (replace_all wordsep [sp] utt)).
+Theorem segment_utt_despace : forall (t : list ((str * str) * Q)) (thr : Q) (utt out : str),
+  segment_utt t thr utt = Ok out ->
+  despace out = concat (split_ws utt).
 Proof.
-  intros t thr wordsep utt out H.
-  pose proof (split_ws_ok (replace_all wordsep [sp] utt)) as Hok.
-  destruct (split_ws (replace_all wordsep [sp] utt)) as [|p0 rest] eqn:Eu.
+  intros t thr utt out H.
+  pose proof (split_ws_ok utt) as Hok.
+  destruct (split_ws utt) as [|p0 rest] eqn:Eu.
   { unfold segment_utt in H. rewrite Eu in H. discriminate H. }
-  rewrite (segment_utt_seg_loop t thr wordsep utt p0 rest Eu) in H. injection H as <-.
+  rewrite (segment_utt_seg_loop t thr utt p0 rest Eu) in H. injection H as <-.
   inversion Hok as [|? ? [_ Hp0] Hrest]; subst.
   cbn [concat]. rewrite despace_app, despace_seg_loop by exact Hrest.
   now rewrite despace_nosp by exact Hp0.
 Qed.
 
 (* segment_utt fails exactly on utterances without units *)
-Theorem segment_utt_fails_iff : forall (t : list ((str * str) * Q)) (thr : Q) (wordsep utt : str),
-  split_ws (replace_all wordsep [sp] utt) = [] <-> segment_utt t thr wordsep utt = Raise IndexError.
+Theorem segment_utt_fails_iff : forall (t : list ((str * str) * Q)) (thr : Q) (utt : str),
+  split_ws utt = [] <-> segment_utt t thr utt = Raise IndexError.
 Proof.
-  intros t thr wordsep utt. unfold segment_utt.
-  destruct (split_ws (replace_all wordsep [sp] utt)); split; intros H; try reflexivity; discriminate.
+  intros t thr utt. unfold segment_utt.
+  destruct (split_ws utt); split; intros H; try reflexivity; discriminate.
 Qed.
 
 (* whole test text: one output line per input line, each a segmentation of its own units *)
-Theorem segment_aligned : forall (test : list str) (s : summary) (k : kind) (thr : Q) (pwb : option Q)
-                                 (wordsep : str) (outs : list str),
-  s_word (sm_sep s) = Some wordsep ->
-  segment test s k thr pwb = Ok outs ->
-  aligned (map (fun utt : str => split_ws (replace_all wordsep [sp] utt)) test) outs.
+Theorem segment_aligned : forall (test : list str) (s : summary) (k : kind) (thr : Q) (pwb : option Q) (outs : list str),
+  segment test s k thr pwb = Ok outs -> aligned (map split_ws test) outs.
 Proof.
-  intros test s k thr pwb wordsep outs Hw H.
-  unfold segment, wordsep_of in H. rewrite Hw in H. cbn [bind] in H.
+  intros test s k thr pwb outs H.
+  unfold segment in H.
   destruct (match pwb with
             | Some q => if qlt_b q 0 || qlt_b 1 q then Raise ValueError else Ok tt
             | None => Ok tt end) as [[]|e]; [|discriminate].
@@ -79,36 +79,55 @@ Proof.
   revert outs H. induction test as [|utt r IH]; intros outs H.
   - injection H as <-. constructor.
   - cbn [mapM] in H.
-    destruct (segment_utt t thr wordsep utt) as [o|e] eqn:Eo; [|discriminate]. cbn [bind] in H.
-    destruct (mapM (segment_utt t thr wordsep) r) as [os|e]; [|discriminate]. cbn [bind] in H.
+    destruct (segment_utt t thr utt) as [o|e] eqn:Eo; [|discriminate]. cbn [bind] in H.
+    destruct (mapM (segment_utt t thr) r) as [os|e]; [|discriminate]. cbn [bind] in H.
     injection H as <-. cbn [map]. constructor.
-    + now apply (segment_utt_is_seg t thr wordsep utt o).
+    + now apply (segment_utt_is_seg t thr utt o).
     + now apply IH.
 Qed.
 
-(* ---------- the repaired behaviour on separators that broke the in-band version ---------- *)
+(* ---------- the repaired behaviour ---------- *)
 (* empty table: every diphone is unseen (probability 1), so every boundary is placed when thr < 1
-   and none when thr = 1.  a=97 b=98 c=99 d=100 ';'=59 ' '=32 *)
+   and none when thr = 1.  a=97 b=98 c=99 d=100 w=119 ';'=59 ' '=32 *)
 
-(* the word separator is a space: "ab cd" -> "ab cd" (in band: every space was deleted, "abcd") *)
+(* a train text whose word separator is a space (fix b848432): "ab cd" -> "ab cd" (in band: every space was
+   deleted, "abcd"); the separator is no longer an argument (fix 1af026b) *)
 Example dibs_sep_is_space :
-  segment_utt [] (1 # 2)%Q [32]%N [97; 98; 32; 99; 100]%N = Ok [97; 98; 32; 99; 100]%N.
+  segment_utt [] (1 # 2)%Q [97; 98; 32; 99; 100]%N = Ok [97; 98; 32; 99; 100]%N.
 Proof. vm_compute. reflexivity. Qed.
 
-(* the word separator "; " contains a space: "a b; c; " -> "a b c" (in band: the marker lost its space
-   and was never replaced, "a;b;c") *)
+(* the text "a b; c; " (the train text's word separator was "; "): the units are those of str.split,
+   a, "b;", "c;" and the token ";" stays part of them (before fix 1af026b "; " was deleted first: "a b c"
+   and "abc") *)
 Example dibs_sep_contains_space :
-  segment_utt [] (1 # 2)%Q [59; 32]%N [97; 32; 98; 59; 32; 99; 59; 32]%N = Ok [97; 32; 98; 32; 99]%N /\
-  segment_utt [] 1%Q [59; 32]%N [97; 32; 98; 59; 32; 99; 59; 32]%N = Ok [97; 98; 99]%N.
+  segment_utt [] (1 # 2)%Q [97; 32; 98; 59; 32; 99; 59; 32]%N = Ok [97; 32; 98; 59; 32; 99; 59]%N /\
+  segment_utt [] 1%Q [97; 32; 98; 59; 32; 99; 59; 32]%N = Ok [97; 98; 59; 99; 59]%N.
 Proof. vm_compute. split; reflexivity. Qed.
 
-(* two units spell the word separator "ab" and no boundary is placed between them: "a b" -> "ab"
-   (in band: the joined units were taken for a marker, " ") *)
+(* a unit spelled like the train text's word separator "w" is kept (fix 1af026b): "a w b" -> "a w b" when
+   every boundary is placed, "awb" when none is (before the fix "w" was deleted first: "a b" and "ab") *)
+Example dibs_unit_spelled_like_sep_kept :
+  segment_utt [] (1 # 2)%Q [97; 32; 119; 32; 98]%N = Ok [97; 32; 119; 32; 98]%N /\
+  segment_utt [] 1%Q [97; 32; 119; 32; 98]%N = Ok [97; 119; 98]%N.
+Proof. vm_compute. split; reflexivity. Qed.
+
+(* two units spell the train text's word separator "ab" and no boundary is placed between them:
+   "a b" -> "ab" (in band: the joined units were taken for a marker, " ") *)
 Example dibs_units_spell_sep :
-  segment_utt [] 1%Q [97; 98]%N [97; 32; 98]%N = Ok [97; 98]%N.
+  segment_utt [] 1%Q [97; 32; 98]%N = Ok [97; 98]%N.
 Proof. vm_compute. reflexivity. Qed.
 
-(* a table with one seen diphone (a, b) of probability 0, separator = space: "a b c" -> "ab c" *)
+(* a table with one seen diphone (a, b) of probability 0: "a b c" -> "ab c" *)
 Example dibs_sep_is_space_mixed :
-  segment_utt [(([97]%N, [98]%N), 0%Q)] (1 # 2)%Q [32]%N [97; 32; 98; 32; 99]%N = Ok [97; 98; 32; 99]%N.
+  segment_utt [(([97]%N, [98]%N), 0%Q)] (1 # 2)%Q [97; 32; 98; 32; 99]%N = Ok [97; 98; 32; 99]%N.
+Proof. vm_compute. reflexivity. Qed.
+
+(* whole text, through segment: a summary without word separator no longer raises TypeError at segmentation
+   (wordsep_of is not called any more), and the unit "w" is kept *)
+Example segment_no_wordsep_no_typeerror :
+  segment [[97; 32; 119; 32; 98]%N]
+          {| sm_sep := {| s_phone := None; s_syll := None; s_word := None |}; sm_level := Phone;
+             nlines := 0; nwords := 0; nphones := 0; lexicon := []; phrase_initial := []; phrase_final := [];
+             internal := []; spanning := []; diphones := [] |} Gold (1 # 2)%Q None
+  = Ok [[97; 32; 119; 32; 98]%N].
 Proof. vm_compute. reflexivity. Qed.
